@@ -31,7 +31,7 @@ def seeded():
             continue
         c = esc
         det = m.get("detected_by", [])
-        out.append(f"| {os.path.basename(d)} | {m.get('property')} | {c(m.get('summary',''))[:260]} | {c(m.get('needs',''))[:260]} | {c('; '.join(det) if det else 'NOT CAUGHT')[:300]} | {c(m.get('history',''))[:260]} |")
+        out.append(f"| {os.path.basename(d)} | {m.get('property')} | {c(m.get('summary',''))[:260]} | {c(m.get('needs',''))[:260]} | {c('; '.join(det) if det else 'NOT CAUGHT')[:300]} | {c('; '.join(m['history']) if isinstance(m.get('history'), list) else m.get('history',''))[:420]} |")
     return "\n".join(out)
 
 p = os.path.join(ROOT, "DESIGN.md")
